@@ -523,6 +523,15 @@ func driveVectors(c *driverCtx, prop string) error {
 			}
 			// the whole record skipped (multi-branch and null-second unions are legal to skip too)
 			targets = append(targets, tgt{"skip-all", reflect.TypeOf(struct{}{})})
+			// compatible targets may also lack fields (the details are C04's business; here: every other field)
+			for _, pr := range []projection{
+				{name: "even-fields", keep: func(_ string, i, _ int) bool { return i%2 == 0 }},
+				{name: "odd-fields", keep: func(_ string, i, _ int) bool { return i%2 == 1 }},
+			} {
+				if t, err := goTypeProjected(top, goVariant{}, pr, "", func(n int) []int { return c.rng.Perm(n) }); err == nil {
+					targets = append(targets, tgt{pr.name, t})
+				}
+			}
 		} else {
 			perm := func(n int) []int { return c.rng.Perm(n) }
 			projs := []projection{
